@@ -350,19 +350,6 @@ Theorem C17_published_is_earlier_calculation : forall specs steps pubs k pubk e,
 Proof. exact published_is_earlier_calculation. Qed.
 Print Assumptions C17_published_is_earlier_calculation.
 
-(* a shard that is created or republished shows the current calculation; otherwise it keeps its content *)
-Theorem C17_publish_current : forall pub calc s l,
-  In (s, l) calc ->
-  plookup pub s = None \/ (exists cur, plookup pub s = Some cur /\ needs_update cur l = true) ->
-  In (s, l) (publish pub calc).
-Proof. exact publish_current. Qed.
-Print Assumptions C17_publish_current.
-
-Theorem C17_publish_kept : forall pub calc s l cur,
-  In (s, l) calc -> plookup pub s = Some cur -> needs_update cur l = false -> In (s, cur) (publish pub calc).
-Proof. exact publish_kept. Qed.
-Print Assumptions C17_publish_kept.
-
 (* assignmentNeedsUpdate exactly: a different count, or at least max(1, len/10) NEW nodes *)
 Theorem C17_needs_update_spec : forall p c,
   needs_update p c = true <->
@@ -397,6 +384,68 @@ Theorem C17_fallback_eq_global : forall specs mg nodes m s,
   fallback mg nodes m s = Some (rlookup (snd (reconcile mg (list_nodes nodes) m)) s).
 Proof. exact fallback_eq_global. Qed.
 Print Assumptions C17_fallback_eq_global.
+
+(* --- the op-level controller model (selector 8: syncs, single worker items in any
+   order through the cache or the fallback, cache clears, deleted and lister-hidden
+   NodeShards) --- *)
+
+(* for ALL op histories: every NodeShard on the API server is the same scheduler's
+   entry of the global calculation of this or an earlier step — never anything else *)
+Theorem C17_published_ops_is_earlier_calculation : forall specs steps pubs k api e,
+  publish_ops_history specs steps = Some pubs -> nth_error pubs k = Some api -> In e api ->
+  exists j ns m ops res, (j <= k)%nat /\ nth_error steps j = Some (ns, m, ops) /\
+                         sync_assignments ns m specs = Some res /\ In e res.
+Proof. exact published_ops_is_earlier_calculation. Qed.
+Print Assumptions C17_published_ops_is_earlier_calculation.
+
+(* a global sync with nothing hidden, entry by entry: the calculated shard unless the damping refuses *)
+Theorem C17_sync_step_lookup : forall mg ns m st t,
+  let calc := snd (reconcile mg (list_nodes ns) m) in
+  plookup (c_api (step6 mg ns m st (OSync []))) t =
+  match plookup calc t with
+  | None => plookup (c_api st) t
+  | Some l => match plookup (c_api st) t with
+              | None => Some l
+              | Some cur => if needs_update cur l then Some l else Some cur
+              end
+  end.
+Proof. exact sync_step_lookup. Qed.
+Print Assumptions C17_sync_step_lookup.
+
+(* after a global sync with no hidden NodeShard and no damping every scheduler's
+   published shard IS its calculated shard, and different schedulers' published shards are disjoint *)
+Theorem C17_sync_without_damping_publishes_calculation : forall specs mg ns m st,
+  new_manager specs = Some mg ->
+  let calc := snd (reconcile mg (list_nodes ns) m) in
+  (forall s l cur, In (s, l) calc -> plookup (c_api st) s = Some cur -> needs_update cur l = true \/ cur = l) ->
+  let api' := c_api (step6 mg ns m st (OSync [])) in
+  (forall s l, In (s, l) calc -> plookup api' s = Some l) /\
+  (forall s1 l1 s2 l2 x, In (s1, l1) calc -> In (s2, l2) calc -> s1 <> s2 ->
+     plookup api' s1 = Some l1 /\ plookup api' s2 = Some l2 /\ ~ (In x l1 /\ In x l2)).
+Proof. exact sync_without_damping_publishes_calculation. Qed.
+Print Assumptions C17_sync_without_damping_publishes_calculation.
+
+(* ... but a single worker item through the fallback republishes ONE shard of a NEW
+   calculation next to the others' old ones: overlap with no damping involved
+   (known finding C17-fallback-republishes-one-shard, reproduced on the real controller) *)
+Theorem C17_fallback_single_key_overlap_refuted :
+  exists p1 p2,
+    publish_ops_history two_caps
+      [ (plain_nodes 4, m_up, [OSync []]); (plain_nodes 4, m_down, [OClear; OKey 2 []]) ] = Some [p1; p2] /\
+    p2 = [(1, [4; 3]%positive); (2, [3; 4]%positive)] /\
+    law_disjoint p2 = false /\
+    needs_update [4; 3]%positive [1; 2]%positive = true /\
+    sync_assignments (plain_nodes 4) m_down two_caps = Some [(1, [1; 2]%positive); (2, [3; 4]%positive)].
+Proof. exact fallback_single_key_overlap_refuted. Qed.
+Print Assumptions C17_fallback_single_key_overlap_refuted.
+
+(* non-vacuity of C17_fallback_eq_global *)
+Example C17_fallback_demo :
+  exists mg, new_manager two_caps = Some mg /\
+    fallback mg (plain_nodes 4) m_up 1 = Some [4; 3]%positive /\
+    fallback mg (plain_nodes 4) m_up 2 = Some [2; 1]%positive /\
+    fallback mg (plain_nodes 4) m_up 7 = None.
+Proof. exact fallback_demo. Qed.
 
 (* hence the published shards are NOT always disjoint / eligible: known finding
    C17-publish-hysteresis-keeps-stale-node (22 nodes, two schedulers, one node moves) *)
